@@ -143,6 +143,13 @@ theorem C18_no_race_state {M L C : Type} [DecidableEq M] [DecidableEq C] (P : Pr
     (hwf : ∀ b ∈ P, WF b) (hd : Discipline P) (s : State M C) (hr : Reach P s) : ¬ RaceState P s :=
   no_race_state P hwf hd s hr
 
+/-- the invariant behind it: in every reachable state a mutex is in a thread's static lockset exactly
+when that thread owns it -/
+theorem C18_lockset_is_ownership {M L C : Type} [DecidableEq M] [DecidableEq C] (P : Prog M L C)
+    (hwf : ∀ b ∈ P, WF b) (s : State M C) (hr : Reach P s) (t : Nat) (m : M) :
+    m ∈ heldAt (body P t) (s.pc t) ↔ s.owner m = some t :=
+  held_iff_owner P hwf s hr t m
+
 /-- the same for threads drawn from a SET of bodies that keeps the lockset discipline -/
 theorem C18_no_race_state_bodies {M L C : Type} [DecidableEq M] [DecidableEq C] (B : Body M L C → Prop)
     (hB : LocksetDiscipline B) (hwfB : ∀ b, B b → WF b) (P : Prog M L C) (hP : ∀ b ∈ P, B b)
